@@ -131,9 +131,17 @@ func runCase(c *core.Ctx, i int) {
 		interleaveCase(c, rng)
 		return
 	}
+	// the where stream runs on real storage nodes (two engines per case): every 27th case of a
+	// quick run (~92), every 81st of a thorough run (~370 per seed)
+	if i%27 == 4 && (c.Tier != "thorough" || i%81 == 4) {
+		whereCase(c, rng)
+		return
+	}
 	switch x := rng.Intn(100); {
-	case x < 58:
+	case x < 52:
 		layoutCase(c, rng, false)
+	case x < 64:
+		multiAggCase(c, rng)
 	case x < 76:
 		layoutCase(c, rng, true)
 	case x < 88:
@@ -945,7 +953,11 @@ func layoutCase(c *core.Ctx, rng *rand.Rand, hazard bool) {
 		}
 		return
 	}
-	// ---- impl-side oracle: C12 itself
+	layoutOracle(c, q, l, ref, got)
+}
+
+// layoutOracle is the impl-side oracle, C12 itself: the layout's answer is the single shard's answer.
+func layoutOracle(c *core.Ctx, q *QueryDef, l *Layout, ref, got runOut) {
 	a, b := ref.res.line(q, ref.full), got.res.line(q, got.full)
 	if ref.res.Err == "" && len(ref.res.Groups) > 0 && got.res.Err != "" {
 		c.Fail("layout-turns-answer-into-error", fmt.Sprintf("single shard answers %q, layout {%s} answers %q", a, describeLayout(l), b))
@@ -964,6 +976,69 @@ func layoutCase(c *core.Ctx, rng *rand.Rand, hazard bool) {
 			c.Fail("limited-row-not-in-full-answer", fmt.Sprintf("group %q", t))
 		}
 	}
+}
+
+// multiAggCase: queries that need TWO OR MORE aggregate types of one field (max(f)+min(f),
+// sum(f)+max(f), ... on sum fields: one primitive series per aggregate type travels in every
+// partial result) over series with gaps, uniform schemas, simple field types. Since fix eb2ea99
+// (a primitive series is merged into the aggregate of its own type) this region is inside the
+// property: the full oracle applies. Every partial result goes over the wire (fieldIterator.
+// MarshalBinary -> leaf response -> [intermediate -> MarshalBinary ->] root merge), and a node's
+// partial result is sparse exactly when the layout separates series that report alternately.
+func multiAggCase(c *core.Ctx, rng *rand.Rand) {
+	nSlots := 3 + rng.Intn(5)
+	w := genWorld(rng, simpleTypes, nSlots)
+	w.Fields[rng.Intn(len(w.Fields))].Type = field.SumField
+	if rng.Intn(2) == 0 {
+		// alternating reporters: series k reports in the slots congruent to k (gaps on every node
+		// that does not hold all of them, a dense merged series where they meet)
+		w.Points = nil
+		for si := range w.Series {
+			for fi := range w.Fields {
+				for s := si % 2; s < nSlots; s += 2 {
+					if rng.Intn(6) > 0 {
+						w.Points = append(w.Points, Point{Series: si, Field: fi, Slot: s, Val: int64(rng.Intn(321) - 80)})
+					}
+				}
+			}
+		}
+	}
+	q := &QueryDef{NumSlots: nSlots, Limit: 100, ftypes: ftypesOf(w)}
+	multi := false
+	for _, f := range w.Fields {
+		if f.Type != field.SumField {
+			if rng.Intn(2) == 0 {
+				q.Selects = append(q.Selects, SelectDef{Field: f.Name, Func: function.Unknown})
+			}
+			continue
+		}
+		fns := []function.FuncType{function.Sum, function.Min, function.Max}
+		rng.Shuffle(len(fns), func(i, j int) { fns[i], fns[j] = fns[j], fns[i] })
+		for _, fn := range fns[:2+rng.Intn(2)] {
+			q.Selects = append(q.Selects, SelectDef{Field: f.Name, Func: fn})
+		}
+		multi = true
+	}
+	_ = multi
+	if rng.Intn(3) > 0 {
+		for k := range w.TagKeys {
+			if rng.Intn(2) == 0 {
+				q.GroupBy = append(q.GroupBy, k)
+			}
+		}
+	}
+	l := genLayout(rng, w, q, false)
+	ref := runLayout(c, w, q, reference(w), true, 0)
+	got := runLayout(c, w, q, l, true, 10)
+	c.Branch("multi-agg")
+	c.Branch(fmt.Sprintf("multi-agg-leaves=%d", len(l.Leaves)))
+	if l.Receivers > 0 {
+		c.Branch("multi-agg-intermediate")
+	}
+	if len(ref.res.Groups) > 0 {
+		c.NonTrivial()
+	}
+	layoutOracle(c, q, l, ref, got)
 }
 
 // protocolCase: the completion / error logic alone — generated mixes of data, empty, not-found,
